@@ -206,6 +206,34 @@ class Logger:
         return '[' + '; '.join(out) + ']'
 
 
+ANSWER_STATEMENTS = [
+    "with x as (select * from int1.t1), y as (select * from int2.t2) select * from x",
+    "with x as (select * from int1.t1), y as (select * from int2.t2) select * from y",
+    "with x as (select * from int1.t1), y as (select * from int2.t2) select * from x where a = 1",
+    "with x as (select * from int1.t1), y as (select * from int2.t2), z as (select * from int3.t3) select * from y",
+    "with x as (select * from int1.t1), y as (select * from int2.t2) select * from (select * from x) as s",
+    "with x as (select * from int1.t1), y as (select * from int2.t2) select s.a from (select * from x) as s where s.b = 1",
+    "with x as (select a from int1.t1), y as (select a from int2.t2) select * from x union select * from y",
+    "with x as (select * from int1.t1) select * from x", "select * from (select * from int1.t1) as s",
+    "select * from (select * from (select * from int1.t1) as s) as r", "select * from int1.t1 where a in (select a from int2.t2)",
+    "select * from int1.t1 join int2.t2 on t1.a = t2.a", "select a from int1.t1 union all select a from int2.t2",
+]
+
+
+def gen_answer_statement(rng):
+    tabs = [('int1', 't1'), ('int2', 't2'), ('int3', 't3'), ('int1', 'u1'), ('int2', 'u2')]
+    names = ['x', 'y', 'z'][:rng.randint(1, 3)]
+    ctes = []
+    for nm in names:
+        ig, t = rng.choice(tabs)
+        w = rng.choice(['', '', ' where a = 1', ' where b > 0'])
+        ctes.append(f'{nm} as (select {rng.choice(["*", "*", "a, b"])} from {ig}.{t}{w})')
+    src = rng.choice(names)
+    body = rng.choice([f'select * from {src}', f'select * from {src}', f'select a from {src} where a > 0', f'select * from (select * from {src}) as s',
+                       f'select s.a from (select * from {src}) as s', f'select * from {src} where a in (select a from {rng.choice(names)})'])
+    return 'with ' + ', '.join(ctes) + ' ' + body
+
+
 def internal_error_site(e):
     tb = traceback.extract_tb(e.__traceback__)
     for fr in reversed(tb):
@@ -330,6 +358,40 @@ def run(tier, seed, replay=None):
                 if len(R.violations) > 5:
                     break
     stats['illformed_plans'] = n_bad
+    # ---- judge: the LAST step produces the answer (reference semantics of Model/SqlEval, shared with C08): a plan whose last step
+    # does not return the rows of the query while the plan cut after an earlier step does is reported here
+    if not replay or (inputs and 'answer' in (rp.get('judge') or '')):
+        import c08
+        ans_inputs = [(s, c) for s in ANSWER_STATEMENTS for c in ('default_ns', 'names')] if not replay else [(inputs[0][0], inputs[0][1])]
+        if not replay:
+            for _ in range(40 if tier == 'quick' else 600):
+                ans_inputs.append((gen_answer_statement(rng), rng.choice(['default_ns', 'default_ns', 'names'])))
+
+        def prefixes(steps, q0):
+            return [(f'cut_after_step_{k - 1}', steps[:k]) for k in range(1, len(steps))]
+        c8find = findings_for('C08')
+        astats, afails, abroken, askipped, adisputed, apreps = c08.run_cases(R, ans_inputs, catd, rng, 3, 'C09ans', c8find, extra_alts=prefixes)
+        R.obligation(f'judge: the last step returns the rows of the query ({astats["judged"]} evaluations of {len(apreps)} plans in Coq)', not abroken)
+        for e in abroken[:1]:
+            broken.append(e)
+        known_c8 = {f['classifier'].get('cured_by') for f in c8find if f['classifier'].get('kind') == 'plan_differs'}
+        seen_a = set()
+        for p, j in afails:
+            altv = p.get('altv', {})
+            cured = [a for a, code in altv.get(j, {}).items() if code == 0]
+            if set(cured) & known_c8 or p['sql'] in seen_a:
+                continue
+            cuts = [a for a in cured if a.startswith('cut_after_step_')
+                    and all(v.get(a) == 0 for v in altv.values())]
+            if not cuts:
+                continue        # a wrong answer that no earlier step has either: decided by C08
+            seen_a.add(p['sql'])
+            db, _ = p['dbs'][j]
+            R.violation({'sql': p['sql'], 'catalog': p['cname'], 'judge': 'answer', 'steps': p['kinds'], 'answer_is_in': cuts,
+                         'database': {'.'.join(k): {'columns': v[0], 'rows': v[1]} for k, v in db.items()},
+                         'what': f'the last step of the plan (#{p["nsteps"] - 1}) does not produce the answer of the query, the plan '
+                                 f'{cuts[0].replace("_", " ")} does on every generated database'})
+        stats['answer_judged'] = astats['judged']
     # ---- internal errors while planning (exception hygiene): exploration
     for (ecls, site), (sql, cname, msg) in internal.items():
         fd = [f for f in findings if f['classifier'].get('kind') == 'internal_error'
